@@ -32,6 +32,7 @@ type FuncContract struct {
 	Props    []string
 	Requires []*Clause
 	Ensures  []*Clause
+	LocalMon *LocalMonitor // a Broadcast / mutex local variable guarding other local variables (shared with closures)
 	ClosureInv []*Clause // closures: facts about captured variables, proved at creation, assumed when the closure runs (must be stable)
 	Asserts  map[string][]*Clause // point (e.g. "select 1") -> assertions proved at that point
 	Assumes  []*Clause // definitional assumptions (listed in the evidence), asserted at function entry
@@ -47,6 +48,16 @@ type FuncContract struct {
 	File     string
 	Line     int
 	Opts     map[string]string
+}
+
+// LocalMonitor: "localmonitor <lockvar> guards v1, v2"; "lghost g: sort"; "linv name: formula".
+type LocalMonitor struct {
+	LockVar string
+	Vars    []string
+	Ghost   []SpecParam
+	Invs    []*Clause
+	Bounded []string // counters assumed not to overflow
+	Owner   string // contract key of the function that declares the variables (for closures: "of <key>")
 }
 
 // GhostStmt is a ghost assignment attached to a program point of a function.
@@ -264,6 +275,38 @@ func ParseSpecFile(path, pkgPath string, ps *PkgSpec) error {
 			}
 			pt = strings.TrimSpace(pt)
 			curF.Asserts[pt] = append(curF.Asserts[pt], c)
+		case "localmonitor":
+			if curF == nil {
+				return fail(l.n, "localmonitor outside func block")
+			}
+			lv, vars, ok := strings.Cut(rest, " guards ")
+			if !ok {
+				return fail(l.n, "expected: localmonitor <lockvar> guards v1, v2")
+			}
+			curF.LocalMon = &LocalMonitor{LockVar: strings.TrimSpace(lv), Vars: strings.Fields(strings.ReplaceAll(vars, ",", " "))}
+		case "lghost":
+			if curF == nil || curF.LocalMon == nil {
+				return fail(l.n, "lghost needs a preceding localmonitor")
+			}
+			nm, ty, ok := strings.Cut(rest, ":")
+			if !ok {
+				return fail(l.n, "lghost needs name: type")
+			}
+			curF.LocalMon.Ghost = append(curF.LocalMon.Ghost, SpecParam{strings.TrimSpace(nm), strings.TrimSpace(ty)})
+		case "lbounded":
+			if curF == nil || curF.LocalMon == nil {
+				return fail(l.n, "lbounded needs a preceding localmonitor")
+			}
+			curF.LocalMon.Bounded = append(curF.LocalMon.Bounded, strings.Fields(strings.ReplaceAll(rest, ",", " "))...)
+		case "linv":
+			if curF == nil || curF.LocalMon == nil {
+				return fail(l.n, "linv needs a preceding localmonitor")
+			}
+			c, err := mkClause(l.n, rest)
+			if err != nil {
+				return err
+			}
+			curF.LocalMon.Invs = append(curF.LocalMon.Invs, c)
 		case "captured":
 			if curF == nil {
 				return fail(l.n, "captured outside func block")
